@@ -642,6 +642,34 @@ func o2(w *World, r *Report) {
 		if reRefund.MatchString(cv) {
 			return true, ""
 		}
+		if depth < 3 && fn.Blocks != nil && !reRefund.MatchString(cv) {
+			// the value may be built from parameters: evaluate it at every call site
+			if cs := w.nodeCallers(fn); len(cs) > 0 && strings.Contains(cv, "p") {
+				all := true
+				for _, c := range cs {
+					if len(c.Site.Common().Args) != len(fn.Params) {
+						all = false
+						break
+					}
+					env := map[*ssa.Parameter]string{}
+					for k, p := range fn.Params {
+						env[p] = w.Canon(c.Site.Common().Args[k])
+					}
+					w.inlineEnv = append(w.inlineEnv, env)
+					s2 := w.Canon(v)
+					w.inlineEnv = w.inlineEnv[:len(w.inlineEnv)-1]
+					if c.Caller.Parent() != nil {
+						s2 = strings.ReplaceAll(s2, "^", "")
+					}
+					if !reRefund.MatchString(s2) {
+						all = false
+					}
+				}
+				if all {
+					return true, ""
+				}
+			}
+		}
 		if pi := paramIndexIn(fn, v); pi >= 0 && depth < 3 {
 			cs := w.nodeCallers(fn)
 			if len(cs) == 0 {
@@ -1102,22 +1130,144 @@ func j3(w *World, r *Report) {
 	if bb == nil {
 		return
 	}
+	// BeginBlock is evaluated on its paths (helpers expanded) under facts about the
+	// vote and about the signing-window threshold
 	vote := "p0.BlockInfo().LastCommitInfo.Votes[(phi((φ + 1)|-1) + 1)]"
 	d := "recv.delegateeLedger.GetFinality(ledger.ToLedgerKey(" + vote + ".Validator.Address))#0"
-	mk := w.findCall(bb, d+".ProcessNotSignedBlock((p0.Height() - 1))")
-	r.Check(mk != nil && w.condCanonHolds(mk.Block(), vote+".SignedLastBlock", -1), "J-3", "BeginBlock:mark-missed", "a validator that did not sign is marked at height-1 (the block it missed), looked up by the vote's validator address", "missed signatures are not marked at height-1 for the non-signing validator", fnSite(w, bb))
-	set := w.findCall(bb, "recv.delegateeLedger.SetFinality("+d+")")
-	r.Check(mk != nil && set != nil && instrDominates(mk, set), "J-3", "BeginBlock:mark-recorded", "the marked delegatee is recorded in the consensus overlay", "the marked delegatee is not recorded", fnSite(w, bb))
-	cnt := w.findCall(bb, d+".GetNotSignedBlockCount(phi(((p0.Height() - 1) - recv.govParams.SignedBlocksWindow())|0), (p0.Height() - 1))")
-	r.Check(cnt != nil, "J-3", "BeginBlock:window", "misses are counted in [max(0, h-1-window), h-1]", "the signing window is not [max(0, h-1-window), h-1]", fnSite(w, bb))
-	da := w.findCall(bb, d+".DelAllStakes()")
-	thr := ""
-	if cnt != nil {
-		thr = "((recv.govParams.SignedBlocksWindow() - int64(" + w.canonCall(cnt.Common(), 0) + ")) < recv.govParams.MinSignedBlocks())"
+	wantCnt := d + ".GetNotSignedBlockCount(phi(((p0.Height() - 1) - recv.govParams.SignedBlocksWindow())|0), (p0.Height() - 1))"
+	cntSeen, cntOK := false, true
+	ev := func(in ssa.Instruction) string {
+		c, ok := in.(ssa.CallInstruction)
+		if !ok {
+			return ""
+		}
+		sc := w.canonCall(c.Common(), 0)
+		switch {
+		case sc == d+".ProcessNotSignedBlock((p0.Height() - 1))":
+			return "MARK"
+		case strings.HasSuffix(sc, ".ProcessNotSignedBlock((p0.Height() - 1))") || strings.Contains(sc, ".ProcessNotSignedBlock("):
+			return "MARK?" + sc
+		case sc == "recv.delegateeLedger.SetFinality("+d+")":
+			return "SETD"
+		case sc == d+".DelAllStakes()":
+			return "DELALL"
+		case sc == "recv.delegateeLedger.DelFinality("+d+".Key())":
+			return "DELD"
+		case callName(c.Common()) == "GetNotSignedBlockCount":
+			if sc == wantCnt {
+				return "CNT"
+			}
+			return "CNT?"
+		}
+		return ""
 	}
-	r.Check(da != nil && thr != "" && w.condCanonHolds(da.Block(), thr, 1), "J-3", "BeginBlock:threshold", "stakes are force-released only when window - missed < MinSignedBlocks", "the jailing threshold is not `window - missed < MinSignedBlocks`", fnSite(w, bb))
-	dl := w.findCall(bb, "recv.delegateeLedger.DelFinality("+d+".Key())")
-	r.Check(da != nil && dl != nil && instrReaches(da, dl) && thr != "" && w.condCanonHolds(dl.Block(), thr, 1), "J-3", "BeginBlock:jail-deletes-delegatee", "the jailed validator's delegatee record is deleted (it leaves the validator set)", "a jailed validator is not removed from the delegatee ledger", fnSite(w, bb))
+	run := func(facts ...atom) ([]pathEnd, bool) {
+		fe := w.newFactEval(nil, facts...)
+		saved := w.branchMarkers
+		w.branchMarkers = false
+		ps, c := w.enumPaths(bb, fe.eval, ev, 6000)
+		w.branchMarkers = saved
+		// the count is a property of its own: take it out of the sequences
+		for i := range ps {
+			var keep []string
+			for _, e := range ps[i].Events {
+				switch e {
+				case "CNT":
+					cntSeen = true
+				case "CNT?":
+					cntSeen, cntOK = true, false
+				default:
+					keep = append(keep, e)
+				}
+			}
+			ps[i].Events = keep
+		}
+		return ps, c && len(fe.used) > 0
+	}
+	signed := TR(`\.SignedLastBlock$`)
+	notSigned := FR(`\.SignedLastBlock$`)
+	thr := `^\(recv\.govParams\.SignedBlocksWindow\(\) - int64\(.*\.GetNotSignedBlockCount\(.*\)\)\)$`
+	below := AR(thr, "<", `^recv\.govParams\.MinSignedBlocks\(\)$`)
+	notBelow := AR(thr, ">=", `^recv\.govParams\.MinSignedBlocks\(\)$`)
+	seq := func(p pathEnd) string { return strings.Join(p.Events, ",") }
+	// a signer is never marked or jailed
+	ps, c1 := run(signed)
+	markOnlyMissed := c1
+	for _, p := range ps {
+		if len(p.Events) > 0 {
+			markOnlyMissed = false
+		}
+	}
+	// a non-signer below the threshold: MARK, SETD, then DELALL ... DELD, per iteration
+	pj, c2 := run(notSigned, below)
+	markRec, jail := c2, c2
+	nJail := 0
+	for _, p := range pj {
+		evs := p.Events
+		for k := 0; k < len(evs); k++ {
+			switch evs[k] {
+			case "MARK":
+				want := []string{"SETD", "DELALL", "DELD"}
+				got := evs[k+1:]
+				if len(got) > 3 {
+					got = got[:3]
+				}
+				truncated := p.Term == "loop" && len(got) < 3 && strings.Join(got, ",") == strings.Join(want[:len(got)], ",")
+				if truncated {
+					continue // the enumeration stopped inside a loop; the same iteration is seen in full on another path
+				}
+				if len(got) < 1 || got[0] != "SETD" {
+					markRec = false
+				}
+				if strings.Join(got, ",") != strings.Join(want, ",") {
+					jail = false
+				} else {
+					nJail++
+				}
+			default:
+				if strings.HasPrefix(evs[k], "MARK?") {
+					markOnlyMissed = false
+				}
+			}
+		}
+		_ = seq
+	}
+	if nJail == 0 {
+		jail = false
+	}
+	// a non-signer at or above the threshold: marked and recorded, never released or deleted
+	pk, c3 := run(notSigned, notBelow)
+	thrOK := c3
+	nMark := 0
+	for _, p := range pk {
+		for k, e := range p.Events {
+			switch e {
+			case "DELALL", "DELD":
+				thrOK = false
+			case "MARK":
+				nMark++
+				if k+1 >= len(p.Events) || p.Events[k+1] != "SETD" {
+					markRec = false
+				}
+			}
+		}
+	}
+	if nMark == 0 {
+		thrOK, markRec = false, false
+	}
+	if os.Getenv("RIGOCHECK_DEBUG") != "" {
+		fmt.Println("DBG J3", c1, c2, c3, nJail, nMark, cntSeen, cntOK, len(ps), len(pj), len(pk))
+		for i, p := range pj {
+			if i < 6 {
+				fmt.Println("DBG J3 pj", p.Term, p.Events)
+			}
+		}
+	}
+	r.Check(markOnlyMissed && nMark > 0, "J-3", "BeginBlock:mark-missed", "a validator that did not sign is marked at height-1 (the block it missed), looked up by the vote's validator address; a signer is never marked", "missed signatures are not marked at height-1 for exactly the non-signing validators", fnSite(w, bb))
+	r.Check(markRec, "J-3", "BeginBlock:mark-recorded", "the marked delegatee is recorded in the consensus overlay", "the marked delegatee is not recorded", fnSite(w, bb))
+	r.Check(cntSeen && cntOK, "J-3", "BeginBlock:window", "misses are counted in [max(0, h-1-window), h-1]", "the signing window is not [max(0, h-1-window), h-1]", fnSite(w, bb))
+	r.Check(thrOK && jail, "J-3", "BeginBlock:threshold", "stakes are force-released exactly when window - missed < MinSignedBlocks", "the jailing threshold is not `window - missed < MinSignedBlocks`", fnSite(w, bb))
+	r.Check(jail, "J-3", "BeginBlock:jail-deletes-delegatee", "the jailed validator's stakes are released and its delegatee record is deleted (it leaves the validator set)", "a jailed validator is not removed from the delegatee ledger", fnSite(w, bb))
 	// marking is a no-op failure: BlockMarker.Mark appends strictly increasing heights
 	bm := needFn(r, "J-3", w, fref{pkgStake, "BlockMarker", "Mark"})
 	if bm != nil {
